@@ -204,8 +204,24 @@ static void rt_terminate(void) { __CPROVER_assert(0, "rt: std::terminate called"
 
 /* ---------------- pthread mutex: first word of the object is the lock flag */
 int rt_parking;  /* cooperative thread model below: set while a parked thread's frames are being left */
+/* Injection of another thread's operation at lock-region granularity: the harness arms the hook with vf_inject_arm(fn, k); the k-th mutex
+   acquisition after that first runs fn() (the lock is free at that moment) - i.e. the other thread's operation takes place between two critical
+   sections of the operation in progress. With k ranging over all acquisitions this covers every interleaving of two operations whose shared
+   accesses all happen under the lock (which the lock-discipline obligation of C03 establishes). */
+typedef void rt_inject_fn(void);
+rt_inject_fn *rt_inject_f; int rt_inject_at; int rt_lock_events; int rt_in_hook;
+void vf_inject_arm(rt_inject_fn *fn, int k) { rt_inject_f = fn; rt_inject_at = k; rt_lock_events = 0; }
+int vf_inject_pending(void) { return rt_inject_f != 0; }
+void vf_inject_disarm(void) { rt_inject_f = 0; rt_inject_at = 0; }
+static void rt_lock_hook(void) {
+  if (rt_inject_f != 0 && !rt_in_hook) {
+    rt_lock_events++;
+    if (rt_lock_events == rt_inject_at) { rt_inject_fn *f = rt_inject_f; rt_inject_f = 0; rt_in_hook = 1; f(); rt_in_hook = 0; }
+  }
+}
 static int rt_mutex_lock(void *m) {
   int *st = (int*)m;
+  rt_lock_hook();
   __CPROVER_assert(!rt_parking, "rt: model limitation: a parked thread kept running (wait reached through an indirect call)");
   __CPROVER_assert(*st == 0, "rt: std::mutex locked twice by the only thread (self-deadlock)");
   __CPROVER_assume(*st == 0);   /* the thread never gets past a self-deadlock: report it once, do not explore what cannot run */
@@ -348,12 +364,12 @@ static void rt_cond_wait(void *cv, void *ulock) {
 }
 static void rt_cond_notify_all(void *cv) {
   int i;
-  for (i = 1; i <= RT_MAXT; i++) if (i <= rt_nthreads && rt_t_state[i] == RT_T_PARKED && rt_t_cond[i] == cv) rt_t_state[i] = RT_T_WOKEN;
+  for (i = 1; i <= rt_nthreads; i++) if (rt_t_state[i] == RT_T_PARKED && rt_t_cond[i] == cv) rt_t_state[i] = RT_T_WOKEN;
 }
 static void rt_cond_notify_one(void *cv) {
   int i, pick = 0;
-  for (i = 1; i <= RT_MAXT; i++)
-    if (i <= rt_nthreads && rt_t_state[i] == RT_T_PARKED && rt_t_cond[i] == cv && (pick == 0 || rt_cond_pick == 1)) pick = i;
+  for (i = 1; i <= rt_nthreads; i++)
+    if (rt_t_state[i] == RT_T_PARKED && rt_t_cond[i] == cv && (pick == 0 || rt_cond_pick == 1)) pick = i;
   if (pick) rt_t_state[pick] = RT_T_WOKEN;
 }
 static void rt_thread_join(void *thr) {
@@ -368,7 +384,7 @@ static void rt_thread_join(void *thr) {
       __CPROVER_assert(0, "rt: join of a thread that is itself waiting for the joining thread (deadlock)"); __CPROVER_assume(0);
     }
     r = 0;
-    for (u = 1; u <= RT_MAXT; u++) if (!r && vf_thread_runnable(u)) r = u;
+    for (u = 1; u <= rt_nthreads; u++) if (!r && vf_thread_runnable(u)) r = u;
     if (!r) {
       __CPROVER_assert(0, "rt: join blocks forever: the thread is parked in condition_variable::wait and nothing can notify it (deadlock)");
       __CPROVER_assume(0);
